@@ -91,7 +91,8 @@ def key_role(ctx, L, rule="R-KEY-ROLE"):
                 from .common import ife_alts
                 ok = ok and dst is not None and all(a in (GLOBAL, ("p", "pdu_specific")) for a in ife_alts(dst))
                 if ok and (L.calls(r, "__send_tp_bam") or L.calls(r, "__send_tp_rts")):
-                    ok = dst == (GLOBAL if bam else ("p", "pdu_specific"))
+                    from .common import resolve_under
+                    ok = resolve_under(dst, G.conj(r.guards())) == (GLOBAL if bam else ("p", "pdu_specific"))
             inst = "%s send_pgn key of %s: %s" % (L.tag, table, pretty(key))
             if ok:
                 ctx.holds(rule, "%s send_pgn keys _snd_buffer by (src_address, destination)%s" % (L.tag, " BAM" if bam else ""))
